@@ -42,3 +42,29 @@ def _seeded():
 
 
 MUTANTS += _seeded()
+
+MUTANTS += [
+    # ---- C02
+    dict(prop='C02', name='skip-last-callback-when-3plus', edits=[(CORE,
+         "        for callback in callbacks:\n            callback(event)",
+         "        for callback in (callbacks[:-1] if len(callbacks) > 3 else callbacks):\n            callback(event)")]),
+    dict(prop='C02', name='callbacks-reversed', edits=[(CORE,
+         "        for callback in callbacks:\n            callback(event)",
+         "        for callback in reversed(callbacks):\n            callback(event)")]),
+    dict(prop='C02', name='resume-does-not-defuse', edits=[(EVENTS,
+         "                    event._defused = True\n\n                    # Create an exclusive copy",
+         "                    pass\n\n                    # Create an exclusive copy")]),
+    dict(prop='C02', name='swallow-undefused-failures-of-plain-events', edits=[(CORE,
+         "        if not event._ok and not hasattr(event, '_defused'):",
+         "        if not event._ok and not hasattr(event, '_defused') and hasattr(event, '_generator'):")]),
+    dict(prop='C02', name='process-exception-lost-ok-true', edits=[(EVENTS,
+         "                event = None  # type: ignore\n                self._ok = False",
+         "                event = None  # type: ignore\n                self._ok = isinstance(e, KeyError)")]),
+    dict(prop='C02', name='exception-copy-drops-args', edits=[(EVENTS,
+         "                    exc = type(event._value)(*event._value.args)\n                    exc.__cause__ = event._value\n                    event = self._generator.throw(exc)",
+         "                    exc = type(event._value)(*event._value.args[:1])\n                    exc.__cause__ = event._value\n                    event = self._generator.throw(exc)")]),
+    dict(prop='C02', name='return-value-none-when-falsy', edits=[(EVENTS,
+         "                self._value = e.args[0] if len(e.args) else None",
+         "                self._value = (e.args[0] or None) if len(e.args) else None")]),
+]
+MUTANTS.sort(key=lambda m: (m['prop'], m['name']))
